@@ -13,8 +13,10 @@ RULE = ("case = event sequence over <=5 scopes and <=4 tasks where every scope o
         "dots; ctx.log_debug/info/warning/error calls at arbitrary positions (inside scopes, outside any scope, in ctx.spawn "
         "members and in plain tasks that inherited the context, after the scope was left) with %-formats and arguments from a "
         "pool (agreeing and disagreeing: too few / too many / ill-typed arguments, malformed directives, '%%', no arguments) plus "
-        "random formats over the alphabet {% s d r q z [ ] = /}, optional exception; records captured by handlers on the "
-        "supplied loggers and on the root logger (a record whose message cannot be built is lost through Handler.handleError); "
+        "random formats over the alphabet {% s d r q z [ ] = /}, optional exception; a fifth of the sequences use the fault knob "
+        "(tasks cancelled from outside while suspended or blocked in an exit, async scopes with a disposable whose cleanup raises "
+        "and whose caller goes on logging); records captured by handlers on the supplied loggers and on the root logger (a record "
+        "whose message cannot be built is lost through Handler.handleError); "
         "quick ~6000 sequences + corpus, thorough 16x5000; non-trivial = >=2 nested scopes, >=1 log call with arguments inside a "
         "scope nested in another AND (an inherited trace id or logger is exercised: some ancestor sets what the logging scope does "
         "not); distinct = by case text")
@@ -47,10 +49,9 @@ def run_real(case: str) -> str:
     run = mc.run_case(case)
     if run is None:
         return "invalid"
-    if run.desync:
-        return run.desync
     out = []
-    for k in range(len(run.evs) + 1):
+    last = int(run.desync.split("@")[1]) if run.desync else len(run.evs) + 1
+    for k in range(last):
         for n in run.notes.get(k, []):
             out.append(f"{k}!{n}")
         for (origin, name, level, exc, text) in run.logs.get(k, []):
@@ -61,6 +62,8 @@ def run_real(case: str) -> str:
     for sid in sorted(run.metrics):
         m = run.metrics[sid]
         out.append(f"S{sid}/{mc.enc(m.trace_id)}/{mc.enc(m.identifier)}/{mc.enc(m.label)}")
+    if run.desync:
+        out.append(f"D{last}")       # a task was not where the program says it is: observations end here
     return " ".join(out)
 
 
@@ -89,9 +92,14 @@ def monitor(case: str, out: str) -> list[str]:
     spec = mc.replay(evs)
     if not spec.ok:
         return []
-    if out.startswith("HANG") or out.startswith("desync"):
+    if out.startswith("HANG"):
         return ["logs.no-observation:" + out[:24]]
     fails = set()
+    limit = len(evs) + 1
+    for tok in out.split():
+        if tok.startswith("D") and tok[1:].isdigit():
+            limit = int(tok[1:])
+            fails.add("logs.no-observation:desync")
     recs: dict[int, list] = {}
     ids: dict[int, tuple[str, str, str]] = {}
     for tok in out.split():
@@ -148,7 +156,7 @@ def monitor(case: str, out: str) -> list[str]:
         fails.add("logs.identifier-not-unique")
 
     for k, ev in enumerate(evs):
-        if ev.kind != "log":
+        if ev.kind != "log" or k >= limit:
             continue
         got = recs.get(k, [])
         user = _user_text(ev)
@@ -211,6 +219,11 @@ def corpus():
         "0:l:w:0:out_%s:sx 0:l:e:1:plain: 0:l:d:0:bad_%s_%s:sonly 0:o:s:s:a:: 0:l:i:0:none:sextra 0:l:e:0:%q:sa 0:l:w:1:trail_%:sa 0:x 0:e",
         # spawned member and plain task inherit trace id and logger; log after the scope was left
         "0:o:a:s:svc:2:tr1 0:s 0:c 1:l:i:0:hello_%s:sw 2:o:s:s:late:: 2:l:w:0:%d:i12 1:e 0:x 2:l:e:0:%s:i0 2:x 2:l:d:0:plain: 2:e 0:e",
+        # fault paths: after a scope whose disposable cleanup raised (caller catches it) the enclosing scope tags the lines
+        "0:o:a:s:outer:1:tr1 0:o:d:a:inner:2:T-2 0:l:i:0:hello_%s:sw 0:x 0:l:w:0:after_%s:sx 0:o:s:s:next:: 0:l:e:0:plain: 0:x 0:x 0:l:d:0:out: 0:e",
+        "0:o:d:s:only:: 0:x 0:l:w:0:after_%s:sx 0:o:s:s:n2:: 0:l:i:0:%d:i3 0:x 0:e",
+        # the scope's task is cancelled while its exit waits for a member; the parent task goes on logging
+        "0:o:a:s:outer::tr1 0:c 1:o:a:a:w:0: 1:s 2:l:i:0:m: 1:x 1:k 0:l:i:0:after_%d:i1 0:x 0:e",
     ]
     return [mc.normalize(c) for c in cs]
 
@@ -244,7 +257,8 @@ def _extra(rng, r, t):
 
 
 def sample(rng) -> str | None:
-    return mc.sample_events(rng, rng.randint(1, 5), degenerate=False, extra=_extra, open_tok=_open_tok, max_steps=50, tick_w=0.0)
+    return mc.sample_events(rng, rng.randint(1, 5), degenerate=False, extra=_extra, open_tok=_open_tok, max_steps=50, tick_w=0.0,
+                            faults=1.0 if rng.random() < 0.2 else 0.0)
 
 
 def generate(rng, tier):
@@ -313,11 +327,15 @@ def mutate(rng, case: str) -> str:
     ntasks = 1 + sum(1 for t in toks if t.endswith(":s") or t.endswith(":c"))
     for _ in range(rng.randint(1, 3)):
         t = rng.randrange(ntasks)
-        op = rng.choice(["l", "l", "l", "o", "o", "x", "s", "c", "e"])
+        op = rng.choice(["l", "l", "l", "o", "o", "x", "s", "c", "e", "k", "d"])
         if op == "l":
             new = _log_tok(rng, t)
         elif op == "o":
             new = _open_tok(rng, t, False)
+        elif op == "d":
+            f = _open_tok(rng, t, False).split(":")
+            f[2] = "d"
+            new = ":".join(f)
         else:
             new = f"{t}:{op}"
         r = rng.random()
